@@ -227,3 +227,29 @@ Example c14_fs_instance_physical_outside :
   inside [s_abs [n_root]] [n_else; n_x] = false /\
   inside [s_abs [n_root]] [n_root; n_lnk] = true.
 Proof. exact ex_physical_premise. Qed.
+
+(* ====== the lower bound on the remove() calls (round 3; the oracle of the recording-file-system family) ======
+   Every obsolete path under a canonically spelled root is in the deletion list - at any position of any history. *)
+Theorem c14_must_delete : forall prior expected roots p r cs ds t1 t2,
+  In p prior -> ~ In p expected -> In r roots ->
+  forallb comp_ok cs = true -> all_seps t2 -> head_is_sep_or_end t1 = true ->
+  r = join cs ++ t2 -> p = join (cs ++ ds) ++ t1 -> absolute p = true ->
+  In p (to_delete prior expected roots).
+Proof. exact must_delete. Qed.
+Print Assumptions c14_must_delete.
+
+Theorem c14_must_delete_no_roots : forall prior expected p,
+  In p prior -> ~ In p expected -> In p (to_delete prior expected []).
+Proof. exact must_delete_no_roots. Qed.
+Print Assumptions c14_must_delete_no_roots.
+
+Theorem c14_must_delete_history : forall runs0 prior e0 r0 e1 r1 rest p r cs ds t1 t2,
+  In p e0 -> ~ In p e1 -> In r r1 ->
+  forallb comp_ok cs = true -> all_seps t2 -> head_is_sep_or_end t1 = true ->
+  r = join cs ++ t2 -> p = join (cs ++ ds) ++ t1 -> absolute p = true ->
+  In p (nth (S (length runs0)) (stale_history prior (runs0 ++ (e0, r0) :: (e1, r1) :: rest)) []).
+Proof. exact must_delete_history. Qed.
+Print Assumptions c14_must_delete_history.
+
+Example c14_must_delete_instance : In [47;47;97] (to_delete [[47;47;97]; [98]] [[98]] [[47]]).
+Proof. exact must_delete_instance. Qed.
